@@ -836,6 +836,28 @@ pub fn replay(sub: &str, case: &Value) -> Result<(), Fail> {
 }
 
 pub fn fuzz_targets() -> Vec<crate::fuzz::Target> {
-    use crate::fuzz::from_strategy;
-    vec![from_strategy("c08_slices", "C08", "random", || case(4096), check)]
+    use crate::fuzz::{U, from_bytes};
+    vec![from_bytes(
+        "c08_slices",
+        "C08",
+        "random",
+        |data: &[u8]| {
+            let mut u = U::new(data);
+            Some(Case {
+                ty: TYS[u.below(TYS.len() as u64) as usize],
+                len: match u.weighted(&[4, 2, 4, 2]) {
+                    0 => [0usize, 1, 2, 7, 8, 9, 255, 256, 4095, 4096][u.below(10) as usize],
+                    1 => 0,
+                    2 => u.below(65) as usize,
+                    _ => u.below(4097) as usize,
+                },
+                qlen: u.below(65) as usize,
+                misalign: u.below(8) as usize,
+                into_wire: u.bool(),
+                seed: u.u64(),
+                garbage: [u.u64(), u.u64(), u.u64()],
+            })
+        },
+        check,
+    )]
 }
